@@ -82,6 +82,48 @@ type tsigFields struct {
 	wellEnded bool
 }
 
+// truncateMAC returns a copy of a signed message whose TSIG (the last record) carries only the first k octets of
+// its MAC, with MAC size and RDLENGTH adjusted; nil when the message is not of that shape.
+func truncateMAC(msg []byte, k int) []byte {
+	w := walkMsg(msg)
+	if w.Err != "" || len(w.RRStart) == 0 {
+		return nil
+	}
+	last := len(w.RRStart) - 1
+	var owner *walkedName
+	for i := range w.Names {
+		if w.Names[i].Off == w.RRStart[last] && !w.Names[i].InRdata {
+			owner = &w.Names[i]
+		}
+	}
+	if owner == nil || w.RREnd[last] != len(msg) {
+		return nil
+	}
+	p := owner.End
+	if be16(msg, p) != int(dns.TypeTSIG) {
+		return nil
+	}
+	an, err := refName(msg, p+10)
+	if err != nil {
+		return nil
+	}
+	q := an.End + 8 // time signed (6), fudge (2)
+	if q+2 > len(msg) {
+		return nil
+	}
+	n := be16(msg, q)
+	if q+2+n > len(msg) || k > n {
+		return nil
+	}
+	out := append([]byte{}, msg[:q]...)
+	out = append(out, byte(k>>8), byte(k))
+	out = append(out, msg[q+2:q+2+k]...)
+	out = append(out, msg[q+2+n:]...)
+	rdlen := be16(msg, p+8) - (n - k)
+	out[p+8], out[p+9] = byte(rdlen>>8), byte(rdlen)
+	return out
+}
+
 func indepStrip(msg []byte) (*tsigFields, bool) {
 	w := walkMsg(msg)
 	if w.Err != "" {
@@ -327,6 +369,18 @@ func runC11(c *Ctx) {
 		c.Pred("verify", "wrong-secret-rejected", in, dns.VerifTsigVerify(append([]byte{}, out2...), bad, reqMAC, timers, uint64(ts)) != nil, "accepted", "error", true)
 		other := "00" + reqMAC
 		c.Pred("verify", "wrong-request-mac-rejected", in, dns.VerifTsigVerify(append([]byte{}, out2...), secB64, other, timers, uint64(ts)) != nil, "accepted", "error", true)
+		// (d2) a MAC cut short (to nothing, one octet, below and above half its size) is not the RFC HMAC
+		if cut := truncateMAC(out2, 0); cut != nil {
+			full := len(f.mac)
+			for _, k := range []int{0, 1, 9, 10, full/2 - 1, full / 2, full - 1} {
+				if k < 0 || k >= full {
+					continue
+				}
+				t2 := truncateMAC(out2, k)
+				err := dns.VerifTsigVerify(t2, secB64, reqMAC, timers, uint64(ts))
+				c.Pred("tamper", "truncated-mac-rejected", fmt.Sprintf("mac-octets=%d of %d %s", k, full, in), err != nil, "accepted", "rejected", true)
+			}
+		}
 		// (e) single-bit alterations (all bits of small messages, sampled for larger ones)
 		if len(out2) < 200 || i%10 == 0 {
 			step := 1
@@ -364,6 +418,14 @@ func runC11(c *Ctx) {
 					c.Pred("tamper", "covered-alteration-rejected", fmt.Sprintf("bit=%d %s", bit, in), err != nil, "accepted", "rejected", true)
 				}
 			}
+		}
+	}
+	// (e2) the server side of the chain: on one stream connection a signed multi-envelope answer (timers-only MACs
+	//      after the first) followed by ordinary signed queries; every reply must verify as a first message again
+	for _, seq := range []string{"q", "qq", "xq", "xqq", "qxq", "xxq"} {
+		for _, nrec := range []int{0, 2} {
+			res := tsigServerSession(seq, nrec)
+			c.Pred("server-session", "server-reply-verifies", fmt.Sprintf("sequence=%s records=%d", seq, nrec), sessionOK(res, len(seq)), sessionText(res), "every transaction ok", true)
 		}
 	}
 	// (f) chains: each MAC covers the previous one; alteration, removal, reordering
